@@ -104,7 +104,8 @@ def handle (j : Json) : R Json := do
                         ("area_wf", toJson (areaWF (if circ then mx else 0) mx r)),
                         ("disjoint", toJson (partsDisjoint r.parts)), ("nparts", toJson r.parts.length),
                         ("covers_input", toJson (subsetIvs a.canon r.canon)),
-                        ("within_expected", toJson (subsetIvs r.canon expected))]
+                        ("within_expected", toJson (subsetIvs r.canon expected)),
+                        ("covers_expected", toJson (subsetIvs expected r.canon))]
     -- "arc-shaped": one part, or two parts bridging the origin (the only shapes for which
     -- "the bases within the distance" is a span)
     let arc := match a.parts with
